@@ -2,4 +2,4 @@
    sumor are mapped to OCaml's; nat, positive, Z stay the extracted inductive types. No Extract Constant. *)
 From Coq Require Import Extraction ExtrOcamlBasic.
 From PGA Require Import Run.
-Extraction "model.ml" run.
+Extraction "model.ml" run_model.
